@@ -14,8 +14,9 @@
 (* A line is <<start, end>>; a join is [kind, side, fee, sss] with the corner  *)
 (* pairs fee (first_edge_end) and sss (second_edge_start) as [l, r]; a         *)
 (* scanline is the half-open column range <<x0, x1>> (<<0, 0>> = empty).       *)
-(* Only StrokeOffset::None occurs: ThickSegmentIter::new fixes it              *)
-(* (thick_segment_iter.rs:31-34) and ScanlineIntersections passes it.          *)
+(* Polylines only use StrokeOffset::None: ThickSegmentIter::new fixes it       *)
+(* (thick_segment_iter.rs:31-34) and ScanlineIntersections passes it; the      *)
+(* joins take the offset as a parameter ("N" | "L" | "R") for triangles.       *)
 EXTENDS EGLine
 
 ExtL(x) == x[1]
@@ -51,12 +52,12 @@ IntersectionsT(fl, fr, sl, sr) ==
        ELSE << IF a[3] THEN fl[2] ELSE a[1], a[2], IF b[3] THEN fr[2] ELSE b[1] >>
 
 Corners(l, r) == [l |-> l, r |-> r]
-JoinStartT(s, m, w) == LET x == ExtentsT(s, m, w)  c == Corners(ExtL(x)[1], ExtR(x)[1]) IN
+JoinStartT(s, m, w, off) == LET x == ExtentsO(s, m, w, off)  c == Corners(ExtL(x)[1], ExtR(x)[1]) IN
                        [kind |-> "Start", side |-> "-", fee |-> c, sss |-> c]
-JoinEndT(m, e, w)   == LET x == ExtentsT(m, e, w)  c == Corners(ExtL(x)[2], ExtR(x)[2]) IN
+JoinEndT(m, e, w, off)   == LET x == ExtentsO(m, e, w, off)  c == Corners(ExtL(x)[2], ExtR(x)[2]) IN
                        [kind |-> "End", side |-> "-", fee |-> c, sss |-> c]
-JoinFromPointsT(s, m, e, w) ==
-  LET f == ExtentsT(s, m, w)  g == ExtentsT(m, e, w)
+JoinFromPointsT(s, m, e, w, off) ==
+  LET f == ExtentsO(s, m, w, off)  g == ExtentsO(m, e, w, off)
       fl == ExtL(f)  fr == ExtR(f)  sl == ExtL(g)  sr == ExtR(g)
       ix == IntersectionsT(fl, fr, sl, sr) IN
   IF ix = <<>>
@@ -113,9 +114,9 @@ SegIntersectionT(sg, y) ==
 
 \* the joins and segments of a vertex sequence (ScanlineIntersections::next_segment, ThickSegmentIter)
 JoinsT(v, w) == [k \in 1..Len(v) |->
-                   IF k = 1 THEN JoinStartT(v[1], v[2], w)
-                   ELSE IF k = Len(v) THEN JoinEndT(v[Len(v) - 1], v[Len(v)], w)
-                   ELSE JoinFromPointsT(v[k - 1], v[k], v[k + 1], w)]
+                   IF k = 1 THEN JoinStartT(v[1], v[2], w, "N")
+                   ELSE IF k = Len(v) THEN JoinEndT(v[Len(v) - 1], v[Len(v)], w, "N")
+                   ELSE JoinFromPointsT(v[k - 1], v[k], v[k + 1], w, "N")]
 SegmentsT(v, w) == IF Len(v) < 2 THEN <<>> ELSE LET j == JoinsT(v, w) IN [i \in 1..(Len(v) - 1) |-> <<j[i], j[i + 1]>>]
 
 \* Scanline::touches / try_extend
